@@ -426,12 +426,21 @@ func i1GenCosChain(r *rng, n int, w *bufio.Writer) {
 		if r.chance(1, 5) {
 			nLines = 1 + r.n(40)
 		}
+		// N2: once in 25 scenarios MANY rules (more than 40 / 64 / 100), most of them generic with selectors of their own
+		many := r.chance(1, 25)
+		if many {
+			nLines = n2Count(r, 1, nil, 41, 160)
+		}
 		ids := append([]int{}, i1ListIDs...)
 		shuffle(r, ids)
 		bodies := make([][]string, nLists)
 		var all []string
 		for j := 0; j < nLines; j++ {
 			t := i1CosLine(r)
+			if many && r.chance(5, 6) {
+				sel := fmt.Sprintf(".g%d", r.n(nLines))
+				t = pick(r, []string{"##", "##", "##", "##", "##", "##", "##", "##", pick(r, c15Domains) + "#@#", "~" + pick(r, c15Domains) + "##", pick(r, c15Domains) + "##"}) + sel
+			}
 			if len(all) > 0 && r.chance(1, 8) {
 				t = pick(r, all)
 			}
